@@ -635,7 +635,7 @@ func Lock(m *sync.Mutex, site string) {
 }
 
 // Unlock releases m and enables goroutines waiting for it.
-func Unlock(m *sync.Mutex) {
+func Unlock(m *sync.Mutex, site ...string) {
 	m.Unlock()
 	s := cur.Load()
 	if s == nil {
@@ -649,6 +649,18 @@ func Unlock(m *sync.Mutex) {
 		}
 	}
 	s.mu.Unlock()
+	// Releasing a lock is a visible operation: yield after it, so that
+	// whatever follows (typically a channel operation) is not glued to the
+	// critical section into one atomic step.
+	if !s.aborted.Load() {
+		if g := s.self(); g != nil {
+			st := "unlock"
+			if len(site) > 0 {
+				st = site[0]
+			}
+			s.park(g, stParked, nil, st)
+		}
+	}
 }
 
 // OnceDo is sync.Once.Do for simulated goroutines.
